@@ -14,6 +14,8 @@ configuration the repository's baseline suite never compiles.  This part of the 
    unshielded balances get_wallet_summary reports must equal the specification's state and ledger.
 
 Called from checks/c01.py: run_part(ctx) -> stats, selftest_part(ctx), replay_part(ctx, replay_object).
+Known finding C01-conflicting-spenders-one-linked (see notes/c01-coins-report.md): the law it breaks (KnownSpendersLaw) is
+applied according to known_findings.json - not listed: off; listed open: excused and reported; listed otherwise: strict.
 """
 import json
 import os
@@ -26,10 +28,25 @@ BIN = "c01t_driver"
 KIND = "coin_trace_rejected"
 
 
-def trace_env(explain=False):
+FINDING = "C01-conflicting-spenders-one-linked"
+
+
+def finding_mode():
+    """How KnownSpendersLaw (Trace_Coins.tla) is applied: not at all while the finding is not listed in
+    known_findings.json, excused-and-reported while it is listed open, strictly once it is listed otherwise (fixed)."""
+    if os.environ.get("VERIF_COIN_KNOWN_SPENDERS") in ("off", "excuse", "strict"):      # development aid (trying a repair)
+        return os.environ["VERIF_COIN_KNOWN_SPENDERS"]
+    for f in lib.load_known_findings():
+        if f.get("id") == FINDING:
+            return "excuse" if f.get("status") == "open" else "strict"
+    return "off"
+
+
+def trace_env(explain=False, mode=None):
     from . import c01
     env = dict(c01.trace_env())
     env["CHECK_COINS"] = "1"
+    env["COIN_KNOWN_SPENDERS"] = mode or finding_mode()
     if explain:
         env["EXPLAIN"] = "1"
     return env
@@ -49,7 +66,7 @@ def drive(ctx, bindir, name, args, seed):
 
 def trace_stats(path):
     st = {"events": 0, "histories": 0, "utxo_ok": 0, "utxo_refused": 0, "utxo_unmined": 0, "fulltx_ok": 0, "fulltx_refused": 0,
-          "fulltx_mined": 0, "fulltx_unmined": 0, "fulltx_never_expires": 0, "fulltx_no_wallet_output": 0,
+          "txstatus_ok": 0, "txstatus_refused": 0, "fulltx_mined": 0, "fulltx_unmined": 0, "fulltx_never_expires": 0, "fulltx_no_wallet_output": 0,
           "coin_projections": 0, "coin_balance_checked": 0, "coin_balance_nonzero": 0, "dust_nonzero": 0, "account2_nonzero": 0,
           "spender_before_coin_states": 0, "states_with_links": 0, "states_with_unmined_spender": 0, "states_with_unmined_coin_tx": 0,
           "states_with_conflicting_spenders": 0, "trunc_ok": 0, "trunc_refused": 0, "max_coin_rows": 0, "distinct_coin_states": 0}
@@ -72,6 +89,8 @@ def trace_stats(path):
                 st["fulltx_no_wallet_output"] += 1 if not r["outs"] else 0
             elif a == "trunc":
                 st["trunc_ok" if r["res"] == "ok" else "trunc_refused"] += 1
+            elif a == "txstatus":
+                st["txstatus_ok" if r["res"] == "ok" else "txstatus_refused"] += 1
             cp = r.get("coins")
             if not cp or not cp.get("chk"):
                 continue
@@ -98,13 +117,13 @@ def trace_stats(path):
     return st, sample
 
 
-def _explain(ctx, d, lines, start, n):
+def _explain(ctx, d, lines, start, n, mode=None):
     """Model's expectation for the rejected event (EXPLAIN=1 lets the trace continue and prints it)."""
     try:
         cut = ctx.path("ctrace_rejected_history.ndjson")
         with open(cut, "w") as f:
             f.write("\n".join(lines[start:n]) + "\n")
-        _, _, _, r = lib.tlc_validate(ctx, d, "Trace_Coins", "Trace_Coins.cfg", cut, timeout=600, env_extra=trace_env(explain=True))
+        _, _, _, r = lib.tlc_validate(ctx, d, "Trace_Coins", "Trace_Coins.cfg", cut, timeout=600, env_extra=trace_env(explain=True, mode=mode))
         out = r.out
         hits = [m.start() for m in re.finditer(r'<< "EXPLAINC?",', out)]
         if hits:
@@ -115,20 +134,39 @@ def _explain(ctx, d, lines, start, n):
     return ""
 
 
-def validate(ctx, d, path, what):
-    acc, n, detail, r = lib.tlc_validate(ctx, d, "Trace_Coins", "Trace_Coins.cfg", path, timeout=1500, env_extra=trace_env())
+def validate(ctx, d, path, what, mode=None):
+    acc, n, detail, r = lib.tlc_validate(ctx, d, "Trace_Coins", "Trace_Coins.cfg", path, timeout=1500, env_extra=trace_env(mode=mode))
     # (a scan refused in a history tainted by the C06 stale-frontier finding is excused by Trace_Wallet exactly as in
     # checks/c01.py; it is C06 that reports it)
+    if any(FINDING in k for k in r.tuples("KNOWN")):
+        what_ = next((f.get("what", "") for f in lib.load_known_findings() if f.get("id") == FINDING), "")
+        lib.known_finding(ctx, "id=%s %s" % (FINDING, what_[:260]))
     if acc:
         ctx.traces += n
         return True
     with open(path) as f:
         lines = f.read().splitlines()
     start = max(i for i in range(n) if json.loads(lines[i])["a"] == "reset")
-    expect = _explain(ctx, d, lines, start, n)
     ev = json.loads(lines[n - 1])
+    history = [json.loads(x) for x in lines[start:n]]
+    eff = mode or finding_mode()
+    if eff != "off":
+        # is it the property-level law (and not the transcription) that the wallet breaks?
+        cut = ctx.path("ctrace_rejected_history_nolaw.ndjson")
+        with open(cut, "w") as f:
+            f.write("\n".join(lines[start:n]) + "\n")
+        acc_off, _, _, _ = lib.tlc_validate(ctx, d, "Trace_Coins", "Trace_Coins.cfg", cut, timeout=900, env_extra=trace_env(mode="off"))
+        if acc_off:
+            lib.violation(ctx, {"property": ctx.prop, "kind": KIND, "law": "KnownSpendersLaw", "what": what,
+                                "first_unmatched_event": n - start, "event": ev, "history": history},
+                          "transparent coins: after event %d of a recorded wallet history the wallet counts a coin although a "
+                          "transaction it stored in full, and has on record as mined at or below its tip, spends it "
+                          "(KnownSpendersLaw of Trace_Coins.tla; rows and balances otherwise agree with Coins.tla): value is "
+                          "counted twice. coins: %s" % (n - start, json.dumps(ev.get("coins"))[:1500]))
+            return False
+    expect = _explain(ctx, d, lines, start, n, mode)
     lib.violation(ctx, {"property": ctx.prop, "kind": KIND, "what": what, "first_unmatched_event": n - start,
-                        "event": ev, "history": [json.loads(x) for x in lines[start:n]]},
+                        "event": ev, "history": history},
                   "transparent coins: event %d of a recorded wallet history (operation '%s') is not a step of Coins.tla / "
                   "Wallet.tla - the coin rows or the unshielded balance the real wallet (built with transparent-inputs) "
                   "reports disagree with the ledger the specification computes. logged: %s | specification expects: %s"
@@ -155,8 +193,10 @@ def run_part(ctx):
 
     # (2) recorded executions of the real wallet (transparent-inputs build), validated by TLC
     plans = [("scenarios", ["scenarios"])]
+    if finding_mode() != "off":
+        plans.append(("conflict", ["conflict-scenario"]))     # the history of the known finding (must pass once it is fixed)
     plans += [("base", [5, 90]), ("ironwood", [3, 80, "ironwood"])] if ctx.quick() else \
-        [("base%d" % i, [25, 110]) for i in range(3)] + [("ironwood%d" % i, [20, 110, "ironwood"]) for i in range(2)]
+        [("base%d" % i, [20, 110]) for i in range(2)] + [("ironwood%d" % i, [15, 110, "ironwood"]) for i in range(2)]
     totals = {}
     paths = []
     for i, (name, args) in enumerate(plans):
@@ -245,6 +285,22 @@ def selftest_part(ctx):
     expect_reject("coins_corrupt_link.ndjson", lines[:li] + [json.dumps(rec)] + lines[li + 1:], li + 1, "removed spend link")
     n = expect_reject("coins_dropped.ndjson", lines[:idx] + lines[idx + 1:], None, "dropped utxo event")
     lib.log("selftest (coins) ok: corrupted balance, coin row and spend link rejected at their events; dropped utxo event rejected at %d" % n)
+
+
+def probe_conflicting_spenders(ctx):
+    """Not part of the registered run: drives the minimal history of the suspected defect (two conflicting spenders
+    stored before their coin, a reorg, the surviving spender's mining learnt from a UTXO report of its change) and
+    validates it with KnownSpendersLaw strict. Returns {"reproduced": bool, "event": ..., "accepted_without_law": bool}."""
+    bindir = lib.cargo_build("h_wallet_t", [BIN])
+    d = lib.stage_specs(ctx, AREA)
+    path = drive(ctx, bindir, "conflict_probe", ["conflict-scenario"], 1)
+    acc0, n0, _, _ = lib.tlc_validate(ctx, d, "Trace_Coins", "Trace_Coins.cfg", path, env_extra=trace_env(mode="off"))
+    acc1, n1, _, _ = lib.tlc_validate(ctx, d, "Trace_Coins", "Trace_Coins.cfg", path, env_extra=trace_env(mode="strict"))
+    with open(path) as f:
+        lines = f.read().splitlines()
+    ev = json.loads(lines[n1 - 1]) if not acc1 else None
+    return {"reproduced": bool(acc0 and not acc1), "accepted_without_law": bool(acc0), "first_rejected_event": None if acc1 else n1,
+            "event": ev, "history": [json.loads(x) for x in lines]}
 
 
 def replay_part(ctx, rep):
